@@ -213,12 +213,14 @@ DropAllLeg(leg) == L!PlainLeg(<<L!IndLen(leg)>>, <<<<>>>>, leg.qconj)
 ChangeLeg(leg, newmods) == L!PlainLeg(leg.sizes, [b \in 1..L!NBlocks(leg) |-> N(newmods)!MakeValid(leg.charges[b])], leg.qconj)
 
 \* the legs handed to add_charge are derived from the legs of a pool tensor (same shape as the operand):
-\* as they are / one block per index (from_qflat) / neighbouring blocks of equal charge merged (bunch)
-Derived(leg, mode) ==
+\* as they are / one block per index (from_qflat) / neighbouring blocks of equal charge merged (bunch) / all charges negated
+Derived(mods, leg, mode) ==
     CASE mode = "same" -> L!ToLegCharge(leg)
+      [] mode = "neg" -> L!PlainLeg(leg.sizes, [b \in 1..L!NBlocks(leg) |-> N(mods)!QNeg(leg.charges[b])], leg.qconj)
       [] mode = "flat" -> L!PlainLeg([i \in 1..L!IndLen(leg) |-> 1], L!QFlat(leg), leg.qconj)
       [] OTHER -> LET b == L!BunchBlocks(leg.sizes, leg.charges) IN L!PlainLeg(b[1], b[2], leg.qconj)
-AddLegsFrom(b, mode) == [a \in 1..R(b) |-> Derived(T(b).legs[a], mode)]
+AddLegsFrom(b, mode) == [a \in 1..R(b) |-> Derived(M(b), T(b).legs[a], mode)]
+AddQ(b, mode) == IF mode = "neg" THEN N(M(b))!QNeg(T(b).qtotal) ELSE T(b).qtotal
 AddChargeT(t, addlegs, mods2, names2, q2) ==
     LET nm == t.mods \o mods2 IN
     XT(nm, t.names \o names2, t.dtype,
@@ -233,9 +235,9 @@ CanAddCharge(s, b) ==
 \* derived from the non-zero entries of self (all of them give the same answer when the precondition holds).
 AddCharge(s, b, mode, qgiven) ==
     LET desc == [op |-> "add_charge", a |-> s, b |-> b, mode |-> mode, addlegs |-> AddLegsFrom(b, mode), mods2 |-> M(b),
-                 names2 |-> T(b).names, q2 |-> T(b).qtotal, qgiven |-> qgiven]
+                 names2 |-> T(b).names, q2 |-> AddQ(b, mode), qgiven |-> qgiven]
     IN IF ~qgiven /\ TIsZero(T(s).val) THEN Fail(desc, "ValueError")
-       ELSE Store(AddChargeT(T(s), AddLegsFrom(b, mode), M(b), T(b).names, T(b).qtotal), desc)
+       ELSE Store(AddChargeT(T(s), AddLegsFrom(b, mode), M(b), T(b).names, AddQ(b, mode)), desc)
 \* wrong number of legs: documented ValueError
 AddChargeWrongLegs(s) ==
     Fail([op |-> "add_charge_wrong", a |-> s, addlegs |-> DelAt(AddLegsFrom(s, "same"), 1), mods2 |-> M(s), names2 |-> T(s).names, q2 |-> T(s).qtotal],
@@ -576,7 +578,7 @@ ChToNdarray == CanChoose("ToNdarray") /\ \E s \in U : Choose([op |-> "to_ndarray
 ChAddCharge == CanChoose("AddCharge") /\ \E s, b \in U :
                   /\ Plain(s) /\ Plain(b) /\ Len(M(s)) + Len(M(b)) <= 4
                   /\ CanAddCharge(s, b)
-                  /\ \E mode \in {"same", "flat", "bunch"}, qg \in BOOLEAN : Choose([op |-> "add_charge", a |-> s, b |-> b, mode |-> mode, qgiven |-> qg])
+                  /\ \E mode \in {"same", "flat", "bunch", "neg"}, qg \in BOOLEAN : Choose([op |-> "add_charge", a |-> s, b |-> b, mode |-> mode, qgiven |-> qg])
 ChAddChargeWrong == CanChoose("AddCharge") /\ \E s \in U : Plain(s) /\ R(s) >= 2 /\ Len(M(s)) >= 1 /\ Choose([op |-> "add_charge_wrong", a |-> s])
 ChDropCharge == CanChoose("DropCharge") /\ \E s \in U : Plain(s) /\ \E k \in 0..Len(M(s)), bn \in BOOLEAN :
                    (bn => NameUsable(T(s), k)) /\ Choose([op |-> "drop_charge", a |-> s, k |-> k, byname |-> bn])
